@@ -160,7 +160,10 @@ def run(ctx):
                     full = idx.get((tgt[0], tuple(vols)))
                     if full is not None:
                         pf, pm_ = L.parse_result(ri0[full]), L.parse_result(rm0[full])
-                        if pm_["res"] == "ok":
+                        # capacity judged without the model where that is unambiguous: PAR1 works on whole files, so with all
+                        # volumes back Repair MUST succeed whenever at most that many files are not their originals
+                        nbad_ = sum(1 for n in names if states[full][2].get(paths[n]) != originals[paths[n]])
+                        if pm_["res"] == "ok" or (fmt == "par1" and nbad_ <= len(vols)):
                             aft2 = L.apply_changed(states[full][2], pf["changed"])
                             if pf["res"] != "ok" or any(aft2.get(paths[n]) != originals[paths[n]] for n in names):
                                 report("with all recovery files back, Repair does not converge to the originals from state %s (%s)" % (tgt[0], fmt), replay); continue
